@@ -1,1 +1,704 @@
-//! (stub)
+//! Reference model for call-frame information (DWARF 5 §6.4, LSB `.eh_frame` / `.eh_frame_hdr`),
+//! written from the standard and DESIGN.md Appendix A.5 — independent of gimli's code.
+//!
+//! # Public API (used by C05, C06; meant for reuse by C14 and C20)
+//!
+//! Pointer encodings (`DW_EH_PE_*`), all 256 encoding bytes:
+//! * [`pe_is_valid`]`(enc)` — is the byte a known encoding (0xff = omit is valid).
+//! * [`pe_read_value`]`(enc, bytes, le, addr_size)` — the raw value of the *format* nibble
+//!   (sign-extended to u64 for signed formats) and the number of bytes consumed.
+//! * [`pe_decode`]`(enc, bytes, le, pos, bases, addr_size)` — full pointer decode:
+//!   validity, omit, base selection (pcrel base = section base + `pos`), value, wrap to the
+//!   address size, indirect flag.  Errors are [`PeErr`].
+//! * [`Bases`] — the optional section / text / data / function bases of one section.
+//!
+//! Row interpreter with unlimited (or configurable) storage:
+//! * [`Insn`] — one decoded call-frame instruction (what the assembler encoded).
+//! * [`Program`] — CIE initial instructions + FDE instructions + factors + address range.
+//! * [`interpret`]`(program, limits)` → [`Table`] — the rows, the error that ends the table
+//!   (if any, and whether it happens while running the CIE), and the storage [`Need`]
+//!   (peak row-stack depth and peak number of distinct registers with a rule).
+//! * [`Table::lookup`]`(addr)` — the row an address-driven evaluation must return.
+//! * [`Limits`] — capacities; `None` = unlimited.
+//!
+//! Address lookup: [`scan_fdes`] — exhaustive scan over `(initial, end)` pairs.
+//! `.eh_frame_hdr`: [`hdr_search`] — the table entry a sorted-table search must select.
+//!
+//! Adapters from gimli's result types to the model's (pure conversions, no logic):
+//! [`row_from_gimli`], [`insn_from_gimli`], [`error_matches`], [`ptr_from_gimli`].
+//!
+//! # Choices where the standard is silent (pinned tree followed; listed as assumptions)
+//! * `DW_CFA_advance_loc*` / `set_loc` inside a CIE's initial instructions are interpreted
+//!   like in an FDE whose initial address is 0 (rows discarded, errors reported).
+//! * `DW_CFA_GNU_args_size` is part of the row state (saved by remember_state).
+//! * Rows remembered in the CIE stay on the stack for the FDE.
+//! * Capacity: rows used = 1 + remembered + (1 if the CIE leaves >= 2 initial rules);
+//!   rules used = distinct registers with an explicit rule in the working row.
+//! * `DW_CFA_restore` of a register without an initial rule removes the rule.
+
+use std::collections::BTreeMap;
+
+pub type Reg = u16;
+
+// ---------------------------------------------------------------- LEB128 (local, u128 maths)
+
+/// Decode an unsigned LEB128 that must fit in u64. `None` = truncated or too large.
+pub fn uleb_dec(b: &[u8]) -> Option<(u64, usize)> {
+    let mut v: u128 = 0;
+    for (i, &x) in b.iter().enumerate() {
+        if i >= 10 {
+            return None;
+        }
+        v |= ((x & 0x7f) as u128) << (7 * i as u32);
+        if x & 0x80 == 0 {
+            if v > u64::MAX as u128 {
+                return None;
+            }
+            return Some((v as u64, i + 1));
+        }
+    }
+    None
+}
+
+/// Decode a signed LEB128 that must fit in i64.
+pub fn sleb_dec(b: &[u8]) -> Option<(i64, usize)> {
+    let mut v: i128 = 0;
+    for (i, &x) in b.iter().enumerate() {
+        if i >= 10 {
+            return None;
+        }
+        v |= ((x & 0x7f) as i128) << (7 * i as u32);
+        if x & 0x80 == 0 {
+            let bits = 7 * (i as u32 + 1);
+            if x & 0x40 != 0 {
+                v |= -1i128 << bits;
+            }
+            if v < i64::MIN as i128 || v > i64::MAX as i128 {
+                return None;
+            }
+            return Some((v as i64, i + 1));
+        }
+    }
+    None
+}
+
+pub fn addr_mask(addr_size: u8) -> u64 {
+    if addr_size >= 8 {
+        u64::MAX
+    } else if addr_size == 0 {
+        0
+    } else {
+        (1u64 << (8 * addr_size as u32)) - 1
+    }
+}
+
+fn uint(b: &[u8], le: bool, n: usize) -> Option<u64> {
+    if b.len() < n {
+        return None;
+    }
+    let mut v = 0u64;
+    for i in 0..n {
+        let byte = if le { b[n - 1 - i] } else { b[i] };
+        v = (v << 8) | byte as u64;
+    }
+    Some(v)
+}
+
+// ---------------------------------------------------------------- pointer encodings
+
+#[derive(Clone, Debug, PartialEq, Eq)]
+pub enum PeErr {
+    /// the byte is not a known encoding
+    Unknown(u8),
+    /// DW_EH_PE_omit where a pointer is required
+    Omit,
+    NoSectionBase,
+    NoTextBase,
+    NoDataBase,
+    NoFuncBase,
+    /// DW_EH_PE_aligned (known, not supported) or an encoding not usable in this role
+    Unsupported(u8),
+    /// a direct pointer is required
+    Indirect,
+    /// ran out of bytes
+    Eof,
+    /// LEB128 does not fit
+    BadLeb,
+}
+
+#[derive(Clone, Copy, Debug, PartialEq, Eq)]
+pub enum Ptr {
+    Direct(u64),
+    Indirect(u64),
+}
+
+impl Ptr {
+    pub fn value(self) -> u64 {
+        match self {
+            Ptr::Direct(v) | Ptr::Indirect(v) => v,
+        }
+    }
+    pub fn direct(self) -> Result<u64, PeErr> {
+        match self {
+            Ptr::Direct(v) => Ok(v),
+            Ptr::Indirect(_) => Err(PeErr::Indirect),
+        }
+    }
+}
+
+#[derive(Clone, Copy, Debug, Default, PartialEq, Eq)]
+pub struct Bases {
+    /// address of the section that contains the pointer (pcrel)
+    pub section: Option<u64>,
+    pub text: Option<u64>,
+    pub data: Option<u64>,
+    pub func: Option<u64>,
+}
+
+pub const PE_OMIT: u8 = 0xff;
+pub const PE_FORMATS: [u8; 9] = [0x00, 0x01, 0x02, 0x03, 0x04, 0x09, 0x0a, 0x0b, 0x0c];
+
+/// Known encoding: omit, or format in {absptr, uleb128, udata2/4/8, sleb128, sdata2/4/8}
+/// and application in {abs, pcrel, textrel, datarel, funcrel, aligned}; bit 7 = indirect.
+pub fn pe_is_valid(enc: u8) -> bool {
+    if enc == PE_OMIT {
+        return true;
+    }
+    let fmt_ok = PE_FORMATS.contains(&(enc & 0x0f));
+    let app_ok = ((enc >> 4) & 0x7) <= 5;
+    fmt_ok && app_ok
+}
+
+/// Width in bytes of a fixed-width format (absptr = address size); `None` for LEB128.
+pub fn pe_fixed_width(enc: u8, addr_size: u8) -> Option<usize> {
+    match enc & 0x0f {
+        0x00 => Some(addr_size as usize),
+        0x02 | 0x0a => Some(2),
+        0x03 | 0x0b => Some(4),
+        0x04 | 0x0c => Some(8),
+        _ => None,
+    }
+}
+
+/// Raw value of the format nibble (signed formats are sign-extended to 64 bits).
+pub fn pe_read_value(enc: u8, b: &[u8], le: bool, addr_size: u8) -> Result<(u64, usize), PeErr> {
+    match enc & 0x0f {
+        0x00 => uint(b, le, (addr_size as usize).min(8)).map(|v| (v, (addr_size as usize).min(8))).ok_or(PeErr::Eof),
+        0x01 => match uleb_dec(b) {
+            Some((v, n)) => Ok((v, n)),
+            None => Err(if b.iter().take(10).any(|x| x & 0x80 == 0) || b.len() >= 10 { PeErr::BadLeb } else { PeErr::Eof }),
+        },
+        0x02 => uint(b, le, 2).map(|v| (v, 2)).ok_or(PeErr::Eof),
+        0x03 => uint(b, le, 4).map(|v| (v, 4)).ok_or(PeErr::Eof),
+        0x04 => uint(b, le, 8).map(|v| (v, 8)).ok_or(PeErr::Eof),
+        0x09 => match sleb_dec(b) {
+            Some((v, n)) => Ok((v as u64, n)),
+            None => Err(if b.iter().take(10).any(|x| x & 0x80 == 0) || b.len() >= 10 { PeErr::BadLeb } else { PeErr::Eof }),
+        },
+        0x0a => uint(b, le, 2).map(|v| (v as u16 as i16 as i64 as u64, 2)).ok_or(PeErr::Eof),
+        0x0b => uint(b, le, 4).map(|v| (v as u32 as i32 as i64 as u64, 4)).ok_or(PeErr::Eof),
+        0x0c => uint(b, le, 8).map(|v| (v, 8)).ok_or(PeErr::Eof),
+        _ => Err(PeErr::Unknown(enc)),
+    }
+}
+
+/// Decode one encoded pointer whose first byte is at section offset `pos`.
+pub fn pe_decode(enc: u8, b: &[u8], le: bool, pos: u64, bases: &Bases, addr_size: u8) -> Result<(Ptr, usize), PeErr> {
+    if !pe_is_valid(enc) {
+        return Err(PeErr::Unknown(enc));
+    }
+    if enc == PE_OMIT {
+        return Err(PeErr::Omit);
+    }
+    let mask = addr_mask(addr_size);
+    let base = match (enc >> 4) & 0x7 {
+        0 => 0,
+        1 => bases.section.ok_or(PeErr::NoSectionBase)?.wrapping_add(pos) & mask,
+        2 => bases.text.ok_or(PeErr::NoTextBase)?,
+        3 => bases.data.ok_or(PeErr::NoDataBase)?,
+        4 => bases.func.ok_or(PeErr::NoFuncBase)?,
+        _ => return Err(PeErr::Unsupported(enc)),
+    };
+    let (v, n) = pe_read_value(enc, b, le, addr_size)?;
+    let p = base.wrapping_add(v) & mask;
+    Ok((if enc & 0x80 != 0 { Ptr::Indirect(p) } else { Ptr::Direct(p) }, n))
+}
+
+// ---------------------------------------------------------------- rows
+
+#[derive(Clone, Debug, PartialEq, Eq, PartialOrd, Ord)]
+pub enum Cfa {
+    RegOff { reg: Reg, off: i64 },
+    /// expression bytes at (section offset, length)
+    Expr { off: u64, len: u64 },
+}
+
+#[derive(Clone, Debug, PartialEq, Eq, PartialOrd, Ord)]
+pub enum Rule {
+    Undefined,
+    SameValue,
+    Offset(i64),
+    ValOffset(i64),
+    Register(Reg),
+    Expression { off: u64, len: u64 },
+    ValExpression { off: u64, len: u64 },
+    Architectural,
+    Constant(u64),
+}
+
+#[derive(Clone, Debug, PartialEq, Eq)]
+pub struct Row {
+    pub start: u64,
+    pub end: u64,
+    pub cfa: Cfa,
+    pub rules: BTreeMap<Reg, Rule>,
+    pub args_size: u64,
+}
+
+#[derive(Clone, Debug, PartialEq, Eq)]
+pub enum CfiError {
+    StackFull,
+    TooManyRegisterRules,
+    PopWithEmptyStack,
+    /// instruction not valid in its context (def_cfa_register/offset with an expression CFA,
+    /// restore in a CIE, negate_ra_state on a non-constant rule)
+    InvalidContext,
+    InvalidSetLoc(u64),
+    AddressOverflow,
+    UnknownInstruction(u8),
+    UnsupportedRegister(u64),
+    /// operand ran past the end of the instruction stream
+    Eof,
+    BadLeb,
+    Pe(PeErr),
+    NoUnwindInfo,
+}
+
+/// AArch64 pseudo-register toggled by DW_CFA_AARCH64_negate_ra_state.
+pub const RA_SIGN_STATE: Reg = 34;
+
+/// One call-frame instruction as encoded (operands are the encoded, still factored values).
+#[derive(Clone, Debug, PartialEq, Eq)]
+pub enum Insn {
+    /// any of advance_loc / advance_loc1/2/4: the unfactored delta operand
+    AdvanceLoc(u32),
+    /// set_loc with its decoded target (or the pointer-decoding error)
+    SetLoc(Result<u64, PeErr>),
+    DefCfa { reg: Reg, off: u64 },
+    DefCfaSf { reg: Reg, off: i64 },
+    DefCfaRegister(Reg),
+    DefCfaOffset(u64),
+    DefCfaOffsetSf(i64),
+    DefCfaExpression { off: u64, len: u64 },
+    Undefined(Reg),
+    SameValue(Reg),
+    /// offset / offset_extended (unsigned factored offset)
+    Offset { reg: Reg, off: u64 },
+    OffsetSf { reg: Reg, off: i64 },
+    ValOffset { reg: Reg, off: u64 },
+    ValOffsetSf { reg: Reg, off: i64 },
+    Register { dst: Reg, src: Reg },
+    Expression { reg: Reg, off: u64, len: u64 },
+    ValExpression { reg: Reg, off: u64, len: u64 },
+    /// restore / restore_extended
+    Restore(Reg),
+    RememberState,
+    RestoreState,
+    ArgsSize(u64),
+    NegateRaState,
+    Nop,
+    /// bytes that the decoder must reject with this error
+    Invalid(CfiError),
+}
+
+#[derive(Clone, Debug)]
+pub struct Program<'a> {
+    pub cie: &'a [Insn],
+    pub fde: &'a [Insn],
+    pub code_align: u64,
+    pub data_align: i64,
+    pub addr_size: u8,
+    /// FDE initial address
+    pub initial: u64,
+    /// FDE end address (initial + range, wrapped to the address size)
+    pub end: u64,
+}
+
+#[derive(Clone, Copy, Debug, Default, PartialEq, Eq)]
+pub struct Limits {
+    /// capacity of the row stack (None = unlimited)
+    pub stack: Option<usize>,
+    /// capacity of one row's rule table (None = unlimited)
+    pub rules: Option<usize>,
+}
+
+#[derive(Clone, Copy, Debug, Default, PartialEq, Eq)]
+pub struct Need {
+    /// 1 + remembered rows + (1 if >= 2 initial rules), peak
+    pub peak_rows: usize,
+    /// peak number of distinct registers with a rule in the working row
+    pub peak_rules: usize,
+}
+
+#[derive(Clone, Debug)]
+pub struct Table {
+    pub rows: Vec<Row>,
+    /// the error that ends the table after `rows`
+    pub error: Option<CfiError>,
+    /// the error happens while running the CIE's initial instructions (or installing them)
+    pub error_in_cie: bool,
+    pub need: Need,
+    pub initial_rules: BTreeMap<Reg, Rule>,
+    /// instructions executed successfully
+    pub steps: usize,
+}
+
+impl Table {
+    /// What an address-driven evaluation (rows in order, stop at the first containing row)
+    /// must return: the row, the error met before reaching it, or `NoUnwindInfo`.
+    pub fn lookup(&self, addr: u64) -> Result<&Row, CfiError> {
+        for r in &self.rows {
+            if r.start <= addr && addr < r.end {
+                return Ok(r);
+            }
+        }
+        match &self.error {
+            Some(e) => Err(e.clone()),
+            None => Err(CfiError::NoUnwindInfo),
+        }
+    }
+}
+
+#[derive(Clone, Debug)]
+struct State {
+    cfa: Cfa,
+    rules: BTreeMap<Reg, Rule>,
+    args: u64,
+}
+
+struct Machine {
+    stack: Vec<State>,
+    extra: usize,
+    lim: Limits,
+    need: Need,
+}
+
+impl Machine {
+    fn top(&mut self) -> &mut State {
+        self.stack.last_mut().unwrap()
+    }
+    fn note(&mut self) {
+        let rows = self.stack.len() + self.extra;
+        if rows > self.need.peak_rows {
+            self.need.peak_rows = rows;
+        }
+        let rules = self.stack.last().map(|s| s.rules.len()).unwrap_or(0);
+        if rules > self.need.peak_rules {
+            self.need.peak_rules = rules;
+        }
+    }
+    fn set(&mut self, reg: Reg, rule: Rule) -> Result<(), CfiError> {
+        let cap = self.lim.rules;
+        let top = self.top();
+        if !top.rules.contains_key(&reg) {
+            if let Some(c) = cap {
+                if top.rules.len() >= c {
+                    return Err(CfiError::TooManyRegisterRules);
+                }
+            }
+        }
+        top.rules.insert(reg, rule);
+        self.note();
+        Ok(())
+    }
+    fn push(&mut self) -> Result<(), CfiError> {
+        if let Some(c) = self.lim.stack {
+            if self.stack.len() + self.extra >= c {
+                return Err(CfiError::StackFull);
+            }
+        }
+        let t = self.stack.last().unwrap().clone();
+        self.stack.push(t);
+        self.note();
+        Ok(())
+    }
+}
+
+fn add_sized(a: u64, d: u64, addr_size: u8) -> Result<u64, CfiError> {
+    let s = a.checked_add(d).ok_or(CfiError::AddressOverflow)?;
+    if s & !addr_mask(addr_size) != 0 {
+        return Err(CfiError::AddressOverflow);
+    }
+    Ok(s)
+}
+
+enum Step {
+    Cont,
+    /// the current row ends here and the next one starts at this address
+    NewRow(u64),
+}
+
+fn step(m: &mut Machine, p: &Program, i: &Insn, start: u64, initial: Option<&BTreeMap<Reg, Rule>>) -> Result<Step, CfiError> {
+    let da = p.data_align;
+    match i {
+        Insn::AdvanceLoc(d) => {
+            let delta = (*d as u64).wrapping_mul(p.code_align);
+            return Ok(Step::NewRow(add_sized(start, delta, p.addr_size)?));
+        }
+        Insn::SetLoc(t) => {
+            let a = match t {
+                Ok(a) => *a,
+                Err(e) => return Err(CfiError::Pe(e.clone())),
+            };
+            if a < start {
+                return Err(CfiError::InvalidSetLoc(a));
+            }
+            return Ok(Step::NewRow(a));
+        }
+        Insn::DefCfa { reg, off } => m.top().cfa = Cfa::RegOff { reg: *reg, off: *off as i64 },
+        Insn::DefCfaSf { reg, off } => m.top().cfa = Cfa::RegOff { reg: *reg, off: off.wrapping_mul(da) },
+        Insn::DefCfaRegister(r) => match &mut m.top().cfa {
+            Cfa::RegOff { reg, .. } => *reg = *r,
+            _ => return Err(CfiError::InvalidContext),
+        },
+        Insn::DefCfaOffset(o) => match &mut m.top().cfa {
+            Cfa::RegOff { off, .. } => *off = *o as i64,
+            _ => return Err(CfiError::InvalidContext),
+        },
+        Insn::DefCfaOffsetSf(o) => match &mut m.top().cfa {
+            Cfa::RegOff { off, .. } => *off = o.wrapping_mul(da),
+            _ => return Err(CfiError::InvalidContext),
+        },
+        Insn::DefCfaExpression { off, len } => m.top().cfa = Cfa::Expr { off: *off, len: *len },
+        Insn::Undefined(r) => m.set(*r, Rule::Undefined)?,
+        Insn::SameValue(r) => m.set(*r, Rule::SameValue)?,
+        Insn::Offset { reg, off } => m.set(*reg, Rule::Offset((*off as i64).wrapping_mul(da)))?,
+        Insn::OffsetSf { reg, off } => m.set(*reg, Rule::Offset(off.wrapping_mul(da)))?,
+        Insn::ValOffset { reg, off } => m.set(*reg, Rule::ValOffset((*off as i64).wrapping_mul(da)))?,
+        Insn::ValOffsetSf { reg, off } => m.set(*reg, Rule::ValOffset(off.wrapping_mul(da)))?,
+        Insn::Register { dst, src } => m.set(*dst, Rule::Register(*src))?,
+        Insn::Expression { reg, off, len } => m.set(*reg, Rule::Expression { off: *off, len: *len })?,
+        Insn::ValExpression { reg, off, len } => m.set(*reg, Rule::ValExpression { off: *off, len: *len })?,
+        Insn::Restore(r) => match initial {
+            None => return Err(CfiError::InvalidContext),
+            Some(init) => match init.get(r) {
+                Some(rule) => m.set(*r, rule.clone())?,
+                None => {
+                    m.top().rules.remove(r);
+                }
+            },
+        },
+        Insn::RememberState => m.push()?,
+        Insn::RestoreState => {
+            if m.stack.len() <= 1 {
+                return Err(CfiError::PopWithEmptyStack);
+            }
+            m.stack.pop();
+        }
+        Insn::ArgsSize(s) => m.top().args = *s,
+        Insn::NegateRaState => {
+            let v = match m.top().rules.get(&RA_SIGN_STATE) {
+                None => 0,
+                Some(Rule::Constant(v)) => *v,
+                Some(_) => return Err(CfiError::InvalidContext),
+            };
+            m.set(RA_SIGN_STATE, Rule::Constant(v ^ 1))?;
+        }
+        Insn::Nop => {}
+        Insn::Invalid(e) => return Err(e.clone()),
+    }
+    Ok(Step::Cont)
+}
+
+/// Interpret a CIE + FDE program under the given capacities.
+pub fn interpret(p: &Program, lim: Limits) -> Table {
+    let mut m = Machine {
+        stack: vec![State { cfa: Cfa::RegOff { reg: 0, off: 0 }, rules: BTreeMap::new(), args: 0 }],
+        extra: 0,
+        lim,
+        need: Need { peak_rows: 1, peak_rules: 0 },
+    };
+    let mut t = Table { rows: vec![], error: None, error_in_cie: false, need: Need::default(), initial_rules: BTreeMap::new(), steps: 0 };
+    // ---- CIE: initial instructions, location counter starts at 0, rows are discarded
+    let mut start = 0u64;
+    for i in p.cie {
+        match step(&mut m, p, i, start, None) {
+            Ok(Step::Cont) => {}
+            Ok(Step::NewRow(a)) => start = a,
+            Err(e) => {
+                t.error = Some(e);
+                t.error_in_cie = true;
+                t.need = m.need;
+                return t;
+            }
+        }
+        t.steps += 1;
+    }
+    let initial = m.stack.last().unwrap().rules.clone();
+    if initial.len() >= 2 {
+        // the initial rules need a row of their own
+        if let Some(c) = lim.stack {
+            if m.stack.len() + 1 > c {
+                t.error = Some(CfiError::StackFull);
+                t.error_in_cie = true;
+                m.need.peak_rows = m.need.peak_rows.max(m.stack.len() + 1);
+                t.need = m.need;
+                return t;
+            }
+        }
+        m.extra = 1;
+        m.note();
+    }
+    t.initial_rules = initial.clone();
+    // ---- FDE
+    let mut start = p.initial;
+    for i in p.fde {
+        match step(&mut m, p, i, start, Some(&initial)) {
+            Ok(Step::Cont) => {}
+            Ok(Step::NewRow(a)) => {
+                let s = m.stack.last().unwrap();
+                t.rows.push(Row { start, end: a, cfa: s.cfa.clone(), rules: s.rules.clone(), args_size: s.args });
+                start = a;
+            }
+            Err(e) => {
+                t.error = Some(e);
+                t.need = m.need;
+                return t;
+            }
+        }
+        t.steps += 1;
+    }
+    let s = m.stack.last().unwrap();
+    t.rows.push(Row { start, end: p.end, cfa: s.cfa.clone(), rules: s.rules.clone(), args_size: s.args });
+    t.need = m.need;
+    t
+}
+
+// ---------------------------------------------------------------- address lookups
+
+/// Exhaustive scan: indices of all `(initial, end)` ranges with `initial <= addr < end`.
+pub fn scan_fdes(ranges: &[(u64, u64)], addr: u64) -> Vec<usize> {
+    ranges.iter().enumerate().filter(|(_, (s, e))| *s <= addr && addr < *e).map(|(i, _)| i).collect()
+}
+
+/// `.eh_frame_hdr` search over a table sorted by initial location: index of the last entry
+/// whose initial location is <= `addr`, or 0 when there is none (the caller must then check
+/// that the FDE really contains the address).  `None` for an empty table.
+pub fn hdr_search(sorted_initials: &[u64], addr: u64) -> Option<usize> {
+    if sorted_initials.is_empty() {
+        return None;
+    }
+    let mut best = 0usize;
+    for (i, a) in sorted_initials.iter().enumerate() {
+        if *a <= addr {
+            best = i;
+        }
+    }
+    Some(best)
+}
+
+// ---------------------------------------------------------------- adapters (pure conversions)
+
+pub fn ptr_from_gimli(p: gimli::Pointer) -> Ptr {
+    match p {
+        gimli::Pointer::Direct(v) => Ptr::Direct(v),
+        gimli::Pointer::Indirect(v) => Ptr::Indirect(v),
+    }
+}
+
+fn rule_from_gimli(r: &gimli::RegisterRule<usize>) -> Rule {
+    use gimli::RegisterRule as G;
+    match r {
+        G::Undefined => Rule::Undefined,
+        G::SameValue => Rule::SameValue,
+        G::Offset(o) => Rule::Offset(*o),
+        G::ValOffset(o) => Rule::ValOffset(*o),
+        G::Register(r) => Rule::Register(r.0),
+        G::Expression(e) => Rule::Expression { off: e.offset as u64, len: e.length as u64 },
+        G::ValExpression(e) => Rule::ValExpression { off: e.offset as u64, len: e.length as u64 },
+        G::Architectural => Rule::Architectural,
+        G::Constant(c) => Rule::Constant(*c),
+    }
+}
+
+/// Convert a gimli row; also returns the number of `(register, rule)` entries that
+/// `registers()` yielded (must equal `row.rules.len()`, i.e. no duplicates).
+pub fn row_from_gimli<S: gimli::UnwindContextStorage<usize>>(row: &gimli::UnwindTableRow<usize, S>) -> (Row, usize) {
+    let cfa = match row.cfa() {
+        gimli::CfaRule::RegisterAndOffset { register, offset } => Cfa::RegOff { reg: register.0, off: *offset },
+        gimli::CfaRule::Expression(e) => Cfa::Expr { off: e.offset as u64, len: e.length as u64 },
+    };
+    let mut rules = BTreeMap::new();
+    let mut n = 0usize;
+    for (reg, rule) in row.registers() {
+        n += 1;
+        rules.insert(reg.0, rule_from_gimli(rule));
+    }
+    (Row { start: row.start_address(), end: row.end_address(), cfa, rules, args_size: row.saved_args_size() }, n)
+}
+
+pub fn insn_from_gimli(i: &gimli::CallFrameInstruction<usize>) -> Insn {
+    use gimli::CallFrameInstruction as G;
+    match i {
+        G::SetLoc { address } => Insn::SetLoc(Ok(*address)),
+        G::AdvanceLoc { delta } => Insn::AdvanceLoc(*delta),
+        G::DefCfa { register, offset } => Insn::DefCfa { reg: register.0, off: *offset },
+        G::DefCfaSf { register, factored_offset } => Insn::DefCfaSf { reg: register.0, off: *factored_offset },
+        G::DefCfaRegister { register } => Insn::DefCfaRegister(register.0),
+        G::DefCfaOffset { offset } => Insn::DefCfaOffset(*offset),
+        G::DefCfaOffsetSf { factored_offset } => Insn::DefCfaOffsetSf(*factored_offset),
+        G::DefCfaExpression { expression } => Insn::DefCfaExpression { off: expression.offset as u64, len: expression.length as u64 },
+        G::Undefined { register } => Insn::Undefined(register.0),
+        G::SameValue { register } => Insn::SameValue(register.0),
+        G::Offset { register, factored_offset } => Insn::Offset { reg: register.0, off: *factored_offset },
+        G::OffsetExtendedSf { register, factored_offset } => Insn::OffsetSf { reg: register.0, off: *factored_offset },
+        G::ValOffset { register, factored_offset } => Insn::ValOffset { reg: register.0, off: *factored_offset },
+        G::ValOffsetSf { register, factored_offset } => Insn::ValOffsetSf { reg: register.0, off: *factored_offset },
+        G::Register { dest_register, src_register } => Insn::Register { dst: dest_register.0, src: src_register.0 },
+        G::Expression { register, expression } => Insn::Expression { reg: register.0, off: expression.offset as u64, len: expression.length as u64 },
+        G::ValExpression { register, expression } => Insn::ValExpression { reg: register.0, off: expression.offset as u64, len: expression.length as u64 },
+        G::Restore { register } => Insn::Restore(register.0),
+        G::RememberState => Insn::RememberState,
+        G::RestoreState => Insn::RestoreState,
+        G::ArgsSize { size } => Insn::ArgsSize(*size),
+        G::NegateRaState => Insn::NegateRaState,
+        G::Nop => Insn::Nop,
+    }
+}
+
+pub fn pe_error_matches(m: &PeErr, g: &gimli::Error) -> bool {
+    use gimli::Error as E;
+    match (m, g) {
+        (PeErr::Unknown(b), E::UnknownPointerEncoding(e)) => e.0 == *b,
+        (PeErr::Omit, E::CannotParseOmitPointerEncoding) => true,
+        (PeErr::NoSectionBase, E::PcRelativePointerButSectionBaseIsUndefined) => true,
+        (PeErr::NoTextBase, E::TextRelativePointerButTextBaseIsUndefined) => true,
+        (PeErr::NoDataBase, E::DataRelativePointerButDataBaseIsUndefined) => true,
+        (PeErr::NoFuncBase, E::FuncRelativePointerInBadContext) => true,
+        (PeErr::Unsupported(b), E::UnsupportedPointerEncoding(e)) => e.0 == *b,
+        (PeErr::Indirect, E::UnsupportedIndirectPointer) => true,
+        (PeErr::Eof, E::UnexpectedEof(_)) => true,
+        (PeErr::BadLeb, E::BadUnsignedLeb128) | (PeErr::BadLeb, E::BadSignedLeb128) => true,
+        _ => false,
+    }
+}
+
+/// Does gimli's error equal the model's specific error?
+pub fn error_matches(m: &CfiError, g: &gimli::Error) -> bool {
+    use gimli::Error as E;
+    match (m, g) {
+        (CfiError::StackFull, E::StackFull) => true,
+        (CfiError::TooManyRegisterRules, E::TooManyRegisterRules) => true,
+        (CfiError::PopWithEmptyStack, E::PopWithEmptyStack) => true,
+        (CfiError::InvalidContext, E::CfiInstructionInInvalidContext) => true,
+        (CfiError::InvalidSetLoc(a), E::InvalidCfiSetLoc(b)) => a == b,
+        (CfiError::AddressOverflow, E::AddressOverflow) => true,
+        (CfiError::UnknownInstruction(b), E::UnknownCallFrameInstruction(c)) => c.0 == *b,
+        (CfiError::UnsupportedRegister(r), E::UnsupportedRegister(s)) => r == s,
+        (CfiError::Eof, E::UnexpectedEof(_)) => true,
+        (CfiError::BadLeb, E::BadUnsignedLeb128) | (CfiError::BadLeb, E::BadSignedLeb128) => true,
+        (CfiError::Pe(p), g) => pe_error_matches(p, g),
+        (CfiError::NoUnwindInfo, E::NoUnwindInfoForAddress) => true,
+        _ => false,
+    }
+}
